@@ -93,7 +93,10 @@ class HistogramCollection(Container[Histogram1D], ObjectWithBinning):
         # TODO: Rename!
         init_kwargs: Dict[str, Any] = {"axis_name": self.axis_name}
         init_kwargs.update(kwargs)
-        histogram = Histogram1D(binning=self.binning, name=name, **init_kwargs)
+        # Each member gets its own binning object: an adaptive one grows in place when filled
+        histogram = Histogram1D(
+            binning=self.binning.copy(), name=name, **init_kwargs
+        )
         histogram.fill_n(values, weights=weights, dropna=dropna)
         self.histograms.append(histogram)
         return histogram
